@@ -21,7 +21,8 @@ import (
 // untouched is accepted. Oracle: Verify* == (true, nil) and neither side panics.
 
 type c01Sig struct {
-	Op  string `json:"op"` // SignHashed | SignZa | Sign
+	Key int    `json:"key,omitempty"` // 0: Priv, i>0: Keys[i-1]; every key is copied into the same buffer before use
+	Op  string `json:"op"`            // SignHashed | SignZa | Sign
 	E   string `json:"e,omitempty"`
 	Za  string `json:"za,omitempty"`
 	ID  string `json:"id,omitempty"`
@@ -29,16 +30,17 @@ type c01Sig struct {
 }
 
 type c01Script struct {
-	Deferred bool       `json:"deferred,omitempty"` // sign everything first, verify afterwards (signatures kept as returned, not copied)
-	Priv    string      `json:"priv"`
-	Sigs    []c01Sig    `json:"sigs"`
-	Content rng.Content `json:"content"`
-	Program []rng.Step  `json:"program,omitempty"`
+	Deferred bool        `json:"deferred,omitempty"` // sign everything first, verify afterwards (signatures kept as returned, not copied)
+	Priv     string      `json:"priv"`
+	Keys     []string    `json:"keys,omitempty"` // further keys of the same signer process, passed in the SAME buffer as Priv
+	Sigs     []c01Sig    `json:"sigs"`
+	Content  rng.Content `json:"content"`
+	Program  []rng.Step  `json:"program,omitempty"`
 }
 
 type c01 struct{}
 
-func init() { core.Register(c01{}) }
+func init()            { core.Register(c01{}) }
 func (c01) ID() string { return "C01" }
 
 func (c01) Plan(tier string) core.Plan {
@@ -56,7 +58,7 @@ func (c01) Meta() core.Meta {
 		Components: map[string]string{"sm2.Sign/SignZa/SignHashed": "real", "sm2.Verify/VerifyZa/VerifyHashed": "real", "randomness source": "stub (simulated device)", "wire": "stub (fault-free in this property)",
 			"public key": "derived by sm2ref ([d]G); sm2ref also solves digests for target r/s/t"},
 		Assumptions: []string{"public key under which signatures must verify is [d]G computed by the reference model", "whether the signature is the standard's value is C02's question; a disagreement with sm2ref.Verify here is only an unclaimed observation"},
-		FaultKinds:  []string{"short", "stall", "cand:rejected", "deferred-verify"},
+		FaultKinds:  []string{"short", "stall", "cand:rejected", "deferred-verify", "key-buffer-reused"},
 		ProbeNames:  []string{"short-t", "short-r", "short-s", "key-short-encoding", "entry:Sign", "entry:SignZa", "entry:SignHashed"},
 		StepUnit:    "reader calls + sign/verify calls",
 	}
@@ -78,6 +80,18 @@ func (c01) Generate(idx int, r *core.Rand, tier string) core.Script {
 	s.Priv = hx(priv)
 	d := ref.Int(priv)
 	s.Deferred = w.Chance(1, 3)
+	if w.Chance(1, 3) { // a signer that handles several keys through one key buffer
+		for i := w.Range(1, 2); i > 0; i-- {
+			k2 := genPriv(w)
+			if len(priv) < 32 {
+				k2 = k2[32-len(priv):]
+				if ref.Int(k2).Sign() == 0 {
+					k2[len(k2)-1] = 1
+				}
+			}
+			s.Keys = append(s.Keys, hx(k2))
+		}
+	}
 	nsig := w.Range(1, 6)
 	for i := 0; i < nsig; i++ {
 		for w.Chance(1, 6) {
@@ -86,6 +100,13 @@ func (c01) Generate(idx int, r *core.Rand, tier string) core.Script {
 		k := randScalar(w)
 		s.Content.Candidates = append(s.Content.Candidates, hx(ref.Pad32(k)))
 		sig := c01Sig{Op: []string{"SignHashed", "SignHashed", "SignZa", "Sign"}[w.Intn(4)]}
+		if len(s.Keys) > 0 {
+			sig.Key = w.Intn(len(s.Keys) + 1)
+		}
+		d := d
+		if sig.Key > 0 {
+			d = ref.Int(unhx(s.Keys[sig.Key-1]))
+		}
 		switch sig.Op {
 		case "SignHashed":
 			e := w.Bytes(32)
@@ -172,11 +193,34 @@ func (c01) Execute(sc core.Script, keep bool) *core.Result {
 		res.Probes["key-short-encoding"]++
 		res.Nontrivial = true
 	}
-	pub := ref.MulG(d)
-	px, py := ref.Pad32(pub.X), ref.Pad32(pub.Y)
+	sm2Canon()
+	// all keys of the run and their public keys; the signer passes every key in the SAME
+	// buffer (overwritten in place), as a process that loads keys into one slot does
+	allKeys := [][]byte{priv}
+	for _, k := range s.Keys {
+		kb := unhx(k)
+		if len(kb) > 32 || !ref.KeyValid(ref.Int(kb)) {
+			log.Add("script key is not valid: outside the property's quantifier")
+			res.Fingerprint = "invalid-key"
+			return res
+		}
+		allKeys = append(allKeys, kb)
+	}
+	var pxs, pys [][]byte
+	for _, k := range allKeys {
+		pub := ref.MulG(ref.Int(k))
+		pxs, pys = append(pxs, ref.Pad32(pub.X)), append(pys, ref.Pad32(pub.Y))
+	}
+	keyBuf := make([]byte, 0, 32)
+	px, py := pxs[0], pys[0]
+	if len(s.Keys) > 0 {
+		res.Faults["key-buffer-reused"]++
+		res.Nontrivial = true
+	}
 	dev := rng.New(s.Content, s.Program, log)
 	var classes []string
 	type pending struct {
+		key    int
 		i      int
 		sg     c01Sig
 		rr, ss []byte
@@ -186,6 +230,7 @@ func (c01) Execute(sc core.Script, keep bool) *core.Result {
 	verify := func(i int, sg c01Sig, rr, ss []byte, cl string) bool {
 		var ok bool
 		var verr error
+		px, py := pxs[sg.Key%len(pxs)], pys[sg.Key%len(pys)]
 		p, txt, _, _ := core.Catch(func() {
 			switch sg.Op {
 			case "SignHashed":
@@ -219,6 +264,10 @@ func (c01) Execute(sc core.Script, keep bool) *core.Result {
 		var rr, ss []byte
 		var err error
 		before := dev.Delivered
+		ki := sg.Key % len(allKeys)
+		keyBuf = append(keyBuf[:0], allKeys[ki]...)
+		priv := keyBuf
+		px, py = pxs[ki], pys[ki]
 		p, txt, _, _ := core.Catch(func() {
 			switch sg.Op {
 			case "SignHashed":
@@ -268,7 +317,7 @@ func (c01) Execute(sc core.Script, keep bool) *core.Result {
 		// the wire delivers (pub, message, r, s) untouched; the verifier node checks,
 		// either right away or after the signer has gone on to sign the other messages
 		if s.Deferred {
-			queue = append(queue, pending{i, sg, rr, ss, cl})
+			queue = append(queue, pending{ki, i, sg, rr, ss, cl})
 			continue
 		}
 		if !verify(i, sg, rr, ss, cl) {
@@ -337,6 +386,14 @@ func (c01) Shrinks(sc core.Script) []core.Script {
 	if len(s.Program) > 0 {
 		c := cp()
 		c.Program = nil
+		out = append(out, c)
+	}
+	if len(s.Keys) > 0 {
+		c := cp()
+		c.Keys = nil
+		for i := range c.Sigs {
+			c.Sigs[i].Key = 0
+		}
 		out = append(out, c)
 	}
 	for i, sg := range s.Sigs {
